@@ -75,6 +75,7 @@ func Start(id, level string) *Run {
 	seed, _ := strconv.ParseInt(os.Getenv("VERIF_SEED"), 10, 64)
 	r := &Run{ID: id, Tier: tier, Seed: seed, Level: level, start: time.Now(),
 		known: map[string]Finding{}, knownSeen: map[string]int{}, ignored: map[string]int{}, parts: map[string]interface{}{}}
+	current = r
 	if as := os.Getenv("VERIF_AS"); as != "" {
 		// borrowed phase: the harness of property `id` runs for property `as`; only violations whose key
 		// matches VERIF_PART_KEYS are clauses of `as` (everything else is this harness's own business)
@@ -113,8 +114,30 @@ func (r *Run) Elapsed() float64 { return time.Since(r.start).Seconds() }
 // Tool reports a tool failure (not a verdict) and exits 2.
 func Tool(format string, a ...interface{}) {
 	fmt.Fprintf(os.Stderr, "TOOL-ERROR: "+format+"\n", a...)
+	// a part of the check broke - but what another part has already found (and confirmed) is still reported: a change
+	// that makes one phase unable to run (its workers die) and is caught by another phase is a caught change
+	if r := current; r != nil && !inTool && r.partFile == "" {
+		inTool = true
+		r.mu.Lock()
+		n := len(r.violations)
+		var keys []interface{}
+		for _, v := range r.violations {
+			keys = append(keys, v.Key)
+		}
+		r.mu.Unlock()
+		if n > 0 {
+			r.Finish(Coverage{"exhaustive": false, "tool_failure": fmt.Sprintf(format, a...), "evaluations": n, "distinct_nontrivial": n, "samples": keys,
+				"rule":        "only the violating cases recorded before the failure are counted here",
+				"explanation": "a later phase of this check failed as a tool; the violations recorded before it are reported"})
+		}
+	}
 	os.Exit(2)
 }
+
+var (
+	current *Run
+	inTool  bool
+)
 
 // Violation records one violating execution. key is the structural witness class; if it
 // matches a known finding it is attributed to it, otherwise it becomes a VIOLATION.
